@@ -140,6 +140,15 @@ func TestHarness(t *testing.T) {
 			d := DescribeRoot(zr.Value)
 			emit(map[string]any{"desc": d, "root": zr.Name, "callable": zr.Callable})
 			paths := GenPaths(r, d, zr.Callable, job.N)
+			for _, x := range zr.Extra {
+				dup := false
+				for _, y := range paths {
+					dup = dup || x == y
+				}
+				if !dup {
+					paths = append(paths, x)
+				}
+			}
 			sort.Strings(paths)
 			for _, p := range paths {
 				argcs := []int{0}
@@ -259,6 +268,8 @@ func TestHarness(t *testing.T) {
 				emit(guard("linkend", "json-raw", seed, func() SysRecord { return FamLinkEnd(job.Seed*31 + int64(i)) }))
 				if k := i - job.Params["offset"]; k < 2 {
 					emit(guard("linkend", "json-raw", seed, func() SysRecord { return FamEndInEnum(seed, k) }))
+				} else if k < 4 {
+					emit(guard("linkend", "json-raw", seed, func() SysRecord { return FamPanicTwice(seed) }))
 				}
 			}
 			if has("relay") {
@@ -293,6 +304,9 @@ func TestHarness(t *testing.T) {
 			}
 			if has("sharedhooks") {
 				emit(guard("sharedhooks", "json-raw", seed, func() SysRecord { return FamSharedHooks(seed) }))
+			}
+			if has("earlycancel") {
+				emit(guard("earlycancel", "json-raw", seed, func() SysRecord { return FamEarlyCancel(seed, i) }))
 			}
 			if has("enumrace") {
 				emit(guard("enumrace", "json-raw", seed, func() SysRecord { return FamEnumRace(seed) }))
